@@ -5,7 +5,7 @@ use crate::protos::*;
 use paste::paste;
 macro_rules! rx {
     ($tier:ident, $x:ident, $pos:expr, $p:ty, $pn:ident) => { paste! {
-        crate::proof!{ #[kani::unwind(5)] fn [<c08_ $tier _rec_ $x:lower _pos $pos _ $pn>]() { c08::rec_with_extra::<$p, {c08::$x}, $pos>() } }
+        crate::proof!{ #[kani::unwind(10)] fn [<c08_ $tier _rec_ $x:lower _pos $pos _ $pn>]() { c08::rec_with_extra::<$p, {c08::$x}, $pos>() } }
     }};
 }
 rx!(q, X_NONE, 0, PBin, bin);
@@ -27,7 +27,7 @@ rx!(t, X_ADDED_STRUCT, 1, PUnchecked, unchecked);
 rx!(t, X_RETYPED, 0, PUnchecked, unchecked);
 macro_rules! ra {
     ($tier:ident, $x:ident, $p:ty, $pn:ident) => { paste! {
-        crate::proof!{ #[kani::unwind(5)] fn [<c08_ $tier _required_absent_ $x:lower _ $pn>]() { c08::rec_required_absent::<$p, {c08::$x}>() } }
+        crate::proof!{ #[kani::unwind(10)] fn [<c08_ $tier _required_absent_ $x:lower _ $pn>]() { c08::rec_required_absent::<$p, {c08::$x}>() } }
     }};
 }
 ra!(q, X_NONE, PBin, bin);
@@ -36,7 +36,7 @@ ra!(t, X_NAME_PRESENT, PBin, bin);
 ra!(t, X_RETYPED, PBin, bin);
 macro_rules! un {
     ($tier:ident, $c:ident, $p:ty, $pn:ident) => { paste! {
-        crate::proof!{ #[kani::unwind(5)] fn [<c08_ $tier _union_ $c:lower _ $pn>]() { c08::union_cases::<$p, {c08::$c}>() } }
+        crate::proof!{ #[kani::unwind(10)] fn [<c08_ $tier _union_ $c:lower _ $pn>]() { c08::union_cases::<$p, {c08::$c}>() } }
     }};
 }
 un!(q, U_KNOWN_A, PBin, bin);
@@ -44,6 +44,6 @@ un!(q, U_UNKNOWN_THEN_KNOWN, PBin, bin);
 un!(q, U_ONLY_UNKNOWN, PBin, bin);
 un!(q, U_EMPTY, PBin, bin);
 un!(q, U_TWO_KNOWN, PBin, bin);
-un!(q, U_RETYPED_VARIANT, PBin, bin);
+un!(t, U_RETYPED_VARIANT, PBin, bin);
 un!(t, U_UNKNOWN_THEN_KNOWN, PLe, le);
 un!(t, U_TWO_KNOWN, PUnchecked, unchecked);
